@@ -521,6 +521,9 @@ static int runOnce(const Config &c)
                 std::cout << "qb " << (q.valid ? 1 : 0) << " " << vp::showReals(q.reals) << "\n";
     }
 
+    if (isMultilevel(c.planner))
+        std::cout << "pdata skipped\n";  // QRRTStarImpl::getPlannerData dereferences a null pointer after short runs (notes/C01.md O4)
+    else
     try
     {
         ob::PlannerData pd(si);
